@@ -63,6 +63,12 @@ func (e *SyncedEnforcer) StartAutoLoadPolicy(d time.Duration) {
 		return
 	}
 
+	// drop a stop request left over from a previous run
+	select {
+	case <-e.stopAutoLoad:
+	default:
+	}
+
 	ticker := time.NewTicker(d)
 	go func() {
 		defer func() {
@@ -88,7 +94,12 @@ func (e *SyncedEnforcer) StartAutoLoadPolicy(d time.Duration) {
 // StopAutoLoadPolicy causes the go routine to exit.
 func (e *SyncedEnforcer) StopAutoLoadPolicy() {
 	if e.IsAutoLoadingRunning() {
-		e.stopAutoLoad <- struct{}{}
+		select {
+		case e.stopAutoLoad <- struct{}{}:
+		default:
+			// a stop request is already pending; sending another one would block forever
+			// once the loader has exited
+		}
 	}
 }
 
